@@ -1278,7 +1278,7 @@ class Session:
         if op in ('=', '!=', '<', '<=', '>', '>='):
             if isinstance(a, tuple) or isinstance(b, tuple):
                 if op not in ('=', '!='):
-                    raise SqlUnsupported('row comparison ' + op)
+                    return self._row_order(a, b, op)
                 r = self._row_eq(a, b)
                 return r if op == '=' or r is None else int(not r)
             c = cmp_values(a, b)
@@ -1339,6 +1339,37 @@ class Session:
             elif c != 0:
                 return 0
         return None if unknown else 1
+
+    def _row_order(self, a, b, op):
+        """(a1, a2, ..) OP (b1, b2, ..) for OP in < <= > >=: lexicographic, i.e. a1 OP' b1 OR (a1 = b1 AND (a2, ..) OP (b2, ..)) with OP' the strict
+        form; evaluated in three-valued logic so a NULL component makes the result NULL exactly when MySQL's expansion does."""
+        if not (isinstance(a, tuple) and isinstance(b, tuple)) or len(a) != len(b) or not a:
+            raise _err(1241, 'Operand should contain the same number of column(s)')
+        strict = op[0]
+
+        def test(x, y, o):
+            c = cmp_values(x, y)
+            if c is None:
+                return None
+            return {'<': c < 0, '<=': c <= 0, '>': c > 0, '>=': c >= 0, '=': c == 0}[o]
+
+        def or3(p, q):
+            if p is True or q is True:
+                return True
+            return None if p is None or q is None else False
+
+        def and3(p, q):
+            if p is False or q is False:
+                return False
+            return None if p is None or q is None else True
+
+        def go(i):
+            if i == len(a) - 1:
+                return test(a[i], b[i], op)
+            return or3(test(a[i], b[i], strict), and3(test(a[i], b[i], '='), go(i + 1)))
+
+        r = go(0)
+        return None if r is None else int(r)
 
     def ev_row(self, e, scope):
         return tuple(self.ev(x, scope) for x in e[1])
